@@ -490,12 +490,9 @@ func runHistory(pl Payload) (h *histRun) {
 				h.violate("residue:exit-events:"+spec.Name, fmt.Sprintf("call %d %s: %d cores signalled their exit during the call, expected exactly one", i, op, len(exits)), h.trace)
 			} else {
 				x := exits[0]
-				wantStack := 1
-				if spec.Ret.K == valuni.TNull {
-					wantStack = 0
-				}
-				if x.stack != wantStack {
-					h.violate("residue:stack:"+spec.Name, fmt.Sprintf("call %d %s completed with %d operand-stack entries (expected %d: %s)", i, op, x.stack, wantStack, map[int]string{0: "nothing for a null function", 1: "exactly the return value"}[wantStack]), h.trace)
+				// every function leaves exactly its result (null for a function without one)
+				if x.stack != 1 {
+					h.violate("residue:stack:"+spec.Name, fmt.Sprintf("call %d %s completed with %d operand-stack entries (expected 1: exactly the return value)", i, op, x.stack), h.trace)
 				}
 				if x.frames != 0 {
 					h.violate("residue:frames:"+spec.Name, fmt.Sprintf("call %d %s completed with %d call frames left", i, op, x.frames), h.trace)
